@@ -70,7 +70,8 @@ OBLIGATIONS = [
              "expired is deleted within that cycle, the share with a valid lease (symbolic choice) is kept, each share examined once, history counters agree",
         outside="container-level lease removal (process_share obligation, C25); kills / restarts (C27)"),
     chx("config_policy", "C26_h", "h_config_policy",
-        cases=[{"md": m, "_label": ("nomode", "age", "cutoff", "bogus")[m]} for m in (0, 1, 2, 3)],
+        cases=[{"md": 0, "_label": "nomode"}, {"md": 1, "ov": False, "_label": "age"}, {"md": 1, "ov": True, "_label": "age-override"},
+               {"md": 2, "_label": "cutoff"}, {"md": 3, "_label": "bogus"}],
         bounds={"quick": {"explicit_true": False}, "thorough": {"explicit_true": True}},
         timeout=T,
         desc="client._Client.get_anonymous_storage_server (expire.* options read through the real _Config/configparser) -> real "
